@@ -130,6 +130,8 @@ pub struct InnerState {
     /// (parent, child)
     pub clones: Vec<(u32, u32)>,
     pub contract_violations: Vec<String>,
+    /// invoked (outside the lock) with the call index at the start of every call()
+    pub on_call: Option<Arc<dyn Fn(usize) + Send + Sync>>,
 }
 
 impl InnerState {
@@ -179,6 +181,7 @@ pub fn new_shared(origin: tokio::time::Instant, mode: Mode) -> Shared {
         ready_log: Vec::new(),
         clones: Vec::new(),
         contract_violations: Vec::new(),
+        on_call: None,
     }))
 }
 
@@ -281,6 +284,11 @@ impl tower::Service<Req> for GatedInner {
             }
         }
         g.calls.push(rec);
+        let cb = g.on_call.clone();
+        drop(g);
+        if let Some(cb) = cb {
+            cb(k);
+        }
         GatedFuture { st: self.st.clone(), k, sleep, never, done: false }
     }
 }
